@@ -75,6 +75,11 @@ class InterruptableThread(threading.Thread):
         self.raise_exception(SystemExit)
 
 
+def running_in_helper_thread():
+    """ Is the current code already being executed by :py:func:`timeout`? """
+    return threading is not None and isinstance(threading.current_thread(), InterruptableThread)
+
+
 def timeout(duration, func, *args, **kwargs):
     """
     Executes a function and kills it (throwing an exception) if it runs for
